@@ -304,6 +304,11 @@ def run(ctx, idx):
             ctx.violate("C12.e", "%s::returns-declared-kind" % d.key, d.module.rel, d.execute.node.lineno, "%s declares output %s but a path returns None" % (d.cls.name, d.output.short()))
 
 
+    ctx.rule("C12.g", "Every argument has the declared kind: each parameter class rejects raw kinds outside its documented domain with ParameterNotValid (kind-narrowing over all choice sequences; table in rules/C20.py).")
+    from .C20 import kind_table
+    kind_table(ctx, idx, "C12.g")
+
+
 def thorough(ctx, idx):
     """producer x reference-input matrix through the extracted decision table"""
     A = K.anchors(idx)
